@@ -144,7 +144,7 @@ fam(EnumFamily('error_enum', ('C11', 'C01'), gen.error_base, gen.error_derive, 1
 fam(EnumFamily('idle_enum', ('C15',), gen.idle_base, gen.idle_derive, 16, 250, 40, 120))
 fam(ScenarioFamily('history_deep', BUS_PROPS, gen.history_deep_scenario, 300, 4000))
 fam(EnumFamily('stop_enum', ('C16', 'C05', 'C06'), gen.stop_base, gen.stop_derive, 20, 200, 40, 150))
-fam(EnumFamily('cancel_enum', ('C16',), gen.stop_base, gen.cancel_derive, 6, 80, 30, 100))
+fam(EnumFamily('cancel_enum', ('C16',), gen.stop_base, gen.cancel_derive, 6, 80, 30, 100, workdir=True))  # (some cancelled buses keep a real WAL file)
 def _second_loop_scenario(rng, i):
     sc = gen.random_scenario(rng, gen.cfg(nb=(1, 3), p_fwd=0.2, p_par=0.2, actor_await=0.6, p_raise=0.1))
     sc['second_loop'] = True
@@ -156,6 +156,7 @@ fam(ScenarioFamily('gather', ('C04',), gen.gather_scenario, 300, 3000))
 fam(ScenarioFamily('late_fwd', ('C07',), gen.late_fwd_scenario, 200, 2000))
 fam(ScenarioFamily('late_on', ('C01', 'C09', 'C11', 'C03'), gen.late_on_scenario, 300, 3000))
 fam(EnumFamily('fwdback_timeout_enum', ('C10', 'C08'), gen.fwdback_base, gen.fwdback_derive, 6, 100, 40, 150))
+fam(ScenarioFamily('odd_timeout', ('C01', 'C03', 'C09', 'C11'), gen.odd_timeout_scenario, 300, 3000))
 fam(ScenarioFamily('manual_step', ('C06',), gen.manual_step_scenario, 150, 1500))
 fam(EnumFamily('double_cancel_enum', ('C06', 'C10', 'C02'), gen.double_cancel_base, gen.double_cancel_derive, 8, 120, 40, 150))
 fam(EnumFamily('waitfor_enum', ('C15',), gen.waitfor_base, gen.waitfor_derive, 16, 200, 40, 120))
@@ -348,6 +349,9 @@ class RunnerExitFamily(ScenarioFamily):
 
 fam(RunnerExitFamily())
 CHECKS['C16'].families.append('runner_exit')
+fam(EnumFamily('walcancel_enum', ('C16',), gen.walcancel_base, gen.walcancel_derive, 5, 60, 30, 100, workdir=True))
+CHECKS['C16'].floors['c16_runloop_cancels_inside_its_own_wal_append'] = {'quick': 5, 'thorough': 50}
+CHECKS['C16'].families.append('walcancel_enum')  # run-loop cancellation landing between the thread hand-offs of the run loop's own WAL append
 CHECKS['C16'].floors['c16_runner_exits_with_running_bus'] = {'quick': 100, 'thorough': 4000}
 CHECKS['C16'].rule += '; plus the real asyncio.Runner path: the main coroutine returns at every enumerated instant leaving buses running and handlers in flight, Runner.close() (cancel all tasks, gather) must finish within 30 virtual seconds'
 
@@ -420,6 +424,9 @@ CHECKS['C06'].families.append('manual_step')
 CHECKS['C08'].families.append('fwdback_timeout_enum')
 CHECKS['C02'].families.append('capacity')  # bursts that fill the bounded queue: order among accepted events, rejected ones aside
 CHECKS['C07'].families.append('late_fwd')
+for _p in ('C01', 'C03', 'C09', 'C11'):
+    CHECKS[_p].families.append('odd_timeout')  # generous timeouts on long-lived event objects; zero / negative timeouts
+CHECKS['C02'].families.append('stop_enum')  # another bus stopped / cleared while this one is mid-handler: order and one-at-a-time must not depend on it
 CHECKS['C10'].families.append('fwdback_timeout_enum')  # a forwarded-back event that has already signalled gets fresh pending results inside a timed handler's drain
 for _p in ('C06', 'C10', 'C02'):
     CHECKS[_p].families.append('double_cancel_enum')  # a second cancellation while the first one is still being cleaned up
